@@ -1,7 +1,7 @@
 """C12 — client batch results are positional (structural clauses, both clients)."""
 import re
 
-from .common import fkey, where, short, arg_is_local, enclosing_loop_next, follow_value, block_line
+from .common import fkey, where, short, arg_is_local, enclosing_loop_next, follow_value, block_line, sub_is_guarded
 from ..facts import op_place, op_const, AnchorLost
 from .. import flow
 
@@ -120,32 +120,36 @@ def r2_slot_index(ctx):
     for label, pat in (("http", HTTP), ("ws", PBR)):
         body = F.one(pat)
         bodies = F.nested(body)
-        subs = []
+        subs = []   # (body, id operand, start operand, where): checked_sub calls and plain subtractions under an `id >= start` guard
         gets = []
         for b in bodies:
-            subs += [(b, c) for c in b.calls_to(r"^core::num::<impl u64>::checked_sub$")]
-            gets += [(b, c) for c in b.calls_to(r"^core::slice::<impl \[T\]>::get_mut$|^std::vec::Vec::<.*>::get_mut$")]
-            # no plain subtraction, no indexing operator on the slot vector
+            for c in b.calls_to(r"^core::num::<impl u64>::checked_sub$"):
+                subs.append((b, c.args[0], c.args[1], where(c)))
+            gets += [(b, c) for c in b.calls_to(r"^core::slice::<impl \[T\]>::get_mut$|^std::vec::Vec::<.*>::get_mut$|^core::slice::<impl \[T\]>::get$")]
+            # no *unguarded* plain subtraction, no indexing operator on the slot vector
             for bi, blk in enumerate(b.blocks):
-                if blk.get("cleanup"):
+                if blk.get("cleanup") or bi not in b.reachable:
                     continue
                 for st in blk["st"]:
                     if st["s"] == "assign" and st["rv"]["k"] == "bin" and st["rv"]["op"].startswith("Sub") and not st["sp"][2] and _involves_reply_id(tr, b, st["rv"]):
-                        R.bad("C12.R2", "%s:plain-sub" % label, "%s client computes an index with a plain subtraction (a foreign id below the range start underflows)" % label, "%s:%d" % (b.file, st["sp"][0]))
+                        if sub_is_guarded(b, bi, st["rv"]):
+                            subs.append((b, st["rv"]["a"], st["rv"]["b"], "%s:%d" % (b.file, st["sp"][0])))
+                        else:
+                            R.bad("C12.R2", "%s:plain-sub" % label, "%s client computes an index with a plain subtraction that no `id >= start` test protects (a foreign id below the range start underflows)" % label, "%s:%d" % (b.file, st["sp"][0]))
             for c in b.calls_to(r"^std::ops::IndexMut::index_mut$|^std::ops::Index::index$"):
                 if (c.self_ty or "").startswith("std::vec::Vec<") and not c.exp:
                     R.bad("C12.R2", "%s:indexing" % label, "%s client indexes the slot vector with [] (a foreign id panics instead of failing the call)" % label, where(c))
         if not subs or not gets:
-            R.bad("C12.R2", "%s:checked-slot" % label, "%s client: slot computation is not checked_sub + get_mut (found %d checked_sub, %d get_mut)" % (label, len(subs), len(gets)), "%s:%d" % (body.file, body.lo))
+            R.bad("C12.R2", "%s:checked-slot" % label, "%s client: slot computation is not a checked/guarded subtraction + get_mut (found %d subtraction(s), %d get_mut)" % (label, len(subs), len(gets)), "%s:%d" % (body.file, body.lo))
             continue
-        for b, c in subs:
+        for b, oa, ob, wh in subs:
             n += 1
-            la = tr.origins(b, c.args[0])
+            la = tr.origins(b, oa)
             ok_id = any(l.kind == "call" and re.search(r"try_parse_inner_as_number$", l.detail["callee"] or "") for l in la)
-            R.check(ok_id, "C12.R2", "%s:index-from-element-id" % label, "slot index is computed from the reply element's own id", "the slot index does not come from the reply element's id: %s" % [flow.leaf_str(l) for l in la], where(c))
-            lb = tr.origins(b, c.args[1])
+            R.check(ok_id, "C12.R2", "%s:index-from-element-id" % label, "slot index is computed from the reply element's own id", "the slot index does not come from the reply element's id: %s" % [flow.leaf_str(l) for l in la], wh)
+            lb = tr.origins(b, ob)
             ok_start = any((l.kind == "field" and l.detail["fields"][-1][1] == "start") or "start" in " ".join(l.chain) for l in lb)
-            R.check(ok_start, "C12.R2", "%s:index-relative-to-start" % label, "slot index is relative to the range start", "the slot index is not relative to the id range's start: %s" % [flow.leaf_str(l) for l in lb], where(c))
+            R.check(ok_start, "C12.R2", "%s:index-relative-to-start" % label, "slot index is relative to the range start", "the slot index is not relative to the id range's start: %s" % [flow.leaf_str(l) for l in lb], wh)
         # a miss is an error
         miss = []
         for b in bodies:
@@ -154,7 +158,7 @@ def r2_slot_index(ctx):
                     if st["s"] == "assign" and st["rv"]["k"] == "agg" and st["rv"].get("variant") == "NotPendingRequest":
                         miss.append((b, bi))
         R.check(bool(miss), "C12.R2", "%s:miss-is-error" % label, "an id outside the batch fails the call (NotPendingRequest)", "%s client no longer fails the call for an id outside the batch" % label, "%s:%d" % (body.file, body.lo))
-    R.floor("C12.R2", n, 2, "checked_sub slot computations")
+    R.floor("C12.R2", n, 2, "checked/guarded slot computations")
 
 
 def _involves_reply_id(tr, b, rv):
